@@ -88,6 +88,27 @@ reg('C04', 'fault_enumeration',
     'with a warning (tested API behaviour); that is classed as no-plaintext.',
     'deviation-bounded exhaustive fault enumeration on the real decrypt paths', 'DESIGN.md 2/C04')
 
+reg('C06', 'model_checking',
+    'Explicit-state search over protect / unlock-scope / sign / decrypt / export-import / derive-public / copy histories on real key objects, with an '
+    'exception injected at every operation boundary inside the unlock scope (crash-point enumeration), a lock-state reference model stepped in lock-step '
+    'and the invariant (private fields zero, no secret integer reachable in the object graph or in the export, private operations refuse, export opens with '
+    'the model passphrase under an independent implementation) evaluated after every operation; plus exhaustive protection configurations: 8 key sets x 9 '
+    'ciphers x S2K hashes x counts {0, 96, 255} x passphrase kinds, and reference-protected foreign forms (simple/salted/iterated x usage 254/255 x 5 '
+    'ciphers x RSA, DSA, ECDSA, EdDSA, ECDH, ElGamal, GNU dummy, subkey under another passphrase).',
+    'Trusted: refpgp.enc.unprotect_secret (validated at setup on GnuPG-protected fixture keys). States are deduplicated on (passphrase id, protection '
+    'parameters, object provenance, public twin derived, observable flags); depth bound 3 (quick) / 4 (thorough).',
+    'explicit-state history search with crash-point enumeration on the real objects + exhaustive configuration enumeration vs. independent implementation', 'DESIGN.md 2/C06')
+
+reg('C13', 'model_checking',
+    'All operation sequences up to depth 3 (thorough 4) over a 14-operation menu of passphrase / key / multi-recipient encryptions and key protections '
+    '(identical arguments repeated), executed on the real code under an owned random source: a recording source (every session key, prefix, salt, IV found in '
+    'the output by an independent decryptor must be a value drawn during that very operation, of the right size, never reused across the history, not '
+    'constant, session key absent from the output) and two scripted labelled streams (every random field equals the stream value drawn in that operation, so '
+    'it is a function of the source only).',
+    'os.urandom is interposed from the harness (no source hook). OpenSSL-internal randomness (ephemeral ECDH keys, PKCS#1 padding) cannot be owned: ephemeral '
+    'points are checked for pairwise distinctness only.',
+    'exhaustive operation-sequence exploration on the real code under a controlled random source', 'DESIGN.md 2/C13')
+
 ALL = ['C%02d' % i for i in range(1, 21)]
 
 NOT_YET = 'check not built yet in this revision of /verif (work in progress; see DESIGN.md section 8)'
